@@ -2,6 +2,7 @@
 # setup_cmd: build everything once, offline, from files on disk.
 set -e
 cd "$(dirname "$0")"
+export VERIF_DIR="${VERIF_DIR:-$(pwd)}"
 unset GOSUMDB GOTOOLCHAIN
 export GOFLAGS=-mod=mod GOPROXY=off
 mkdir -p bin work evidence replay
